@@ -10,7 +10,7 @@
    those of the grid. *)
 From Coq Require Import ZArith List Bool.
 Import ListNotations.
-From Urwid Require Import PyBase Canvas CanvasGrid CanvasFacts CanvasAbs CanvasVert CanvasProg.
+From Urwid Require Import PyBase Canvas CanvasGrid CanvasFacts CanvasAbs CanvasVert CanvasHoriz CanvasJoin CanvasProg CanvasProgH CanvasSim.
 Open Scope Z_scope.
 
 (* ------------------------------------------------------------------------------------------
